@@ -76,17 +76,19 @@ def make_stream(R):
         else:
             m = gen.mutate(R, gen.rmsg(R))
         msgs.append(m)
-    s = b''.join(msgs)
+    s = b''.join(msgs)[:180]
+    if s and not s.endswith((b'\n', b'\r')):
+        s += b'\n'
     if R.random() < 0.25:
-        # the stream ends in an unterminated unit (executed by the final zero-length call), possibly a binary block
+        # the stream ends in a complete but unterminated unit (executed by the final zero-length call), possibly a binary block
         d = bytes(R.choice(b'ab\x00\x01\n') for _ in range(R.randint(1, 6)))
         s += R.choice([b'II 5', b'TEST:A?', b'BLK? #' + str(len(str(len(d)))).encode() + str(len(d)).encode() + d, b'TXT "x"', b'CH 1,2'])
-    return s[:200]
+    return s
 
 
 def streams(tier, rng):
     n = 500 if tier == 'quick' else 6000
-    cases, groups, info = [], [], {}
+    cases, groups, info, flushrefs = [], [], {}, []
     for _ in range(n):
         stream = make_stream(rng)
         pats = gen.PATS[:]
@@ -100,6 +102,14 @@ def streams(tier, rng):
         for _ in range(3):
             chunkings.append(gen.chunkings(rng, stream, 0.9))
         start = len(cases)
+        if not stream.endswith((b'\n', b'\r')):
+            # the zero-length call executes what is buffered as a complete message: the same stream with a terminator
+            # appended (and no zero-length call) must behave alike, unless the terminator is swallowed by an unfinished block
+            c = gen.scenario(256, 16, table, [('I', stream + b'\n')])
+            cases.append(c)
+            info[c] = stream
+            flushrefs.append((len(cases) - 1, len(cases)))
+            start = len(cases)
         for ch in chunkings:
             c = gen.scenario(256, 16, table, [('I', x) for x in ch if x] + [('I', b'')])
             cases.append(c)
@@ -115,6 +125,19 @@ def streams(tier, rng):
                     shape = 'newline-in-quoted-string' if quoted_newline(stream) else 'chunking'
                     res.append((i, shape, 'stream %r: this partition behaves differently from byte-at-a-time delivery\n  byte-at-a-time: %s\n  this partition: %s' % (stream, ref[:400], events_proj(outs[i])[:400])))
                     break
+        for i_term, i_ref in flushrefs:
+            a, b = events_proj(outs[i_term]), events_proj(outs[i_ref])
+            if ' B ' not in (a + ' ') and not a.endswith(' B') and False:
+                pass
+            ta = [t for t in a.split(' ') if t[:1] != 'B' and t != '|' and t[:1] != 'Q']
+            tb = [t for t in b.split(' ') if t[:1] != 'B' and t != '|' and t[:1] != 'Q']
+            rem = [t for t in a.split(' ') if t[:1] == 'B']
+            if rem and rem[0] != 'B':
+                continue          # the appended terminator was swallowed (unfinished block): nothing to compare
+            if ta != tb:
+                stream = info[cases_[i_term]]
+                shape = 'newline-in-quoted-string' if quoted_newline(stream) else 'flush'
+                res.append((i_ref, shape, 'stream %r: the zero-length call does not execute the buffered data like a terminated message\n  with terminator: %s\n  with flush     : %s' % (stream, ' '.join(ta)[:400], ' '.join(tb)[:400])))
         return res
     yield {'name': 'chunkings', 'cases': cases, 'project': project, 'post': post,
            'nontrivial': lambda c, o: c if (o.count(' R') >= 3 and ' H' in o) else None}
